@@ -87,7 +87,7 @@ func raises(ast *progs.Prog, hs *progs.HSnap, line string) bool {
 		switch e.Op {
 		case "fail":
 			return true
-		case "inc", "set", "setf":
+		case "inc", "set", "setf", "obs", "sets":
 			present[e.M][k] = true
 		case "del":
 			delete(present[e.M], k)
